@@ -321,6 +321,8 @@ func main() {
 		misc(*out, rng)
 	case "colour":
 		colour(*out, rng)
+	case "tags":
+		tags(*out, *maxlen)
 	case "front":
 		front(*out)
 	case "fatalchild":
